@@ -13,6 +13,7 @@
 // The extension function {urn:verif:c16}probe(k, id, v) returns v unchanged and counts the calls per
 // (k, id): it makes the number of key evaluations observable (cache model validation only).
 #include <cstdio>
+#include <cstring>
 #include <iostream>
 #include <map>
 #include <sstream>
@@ -26,6 +27,7 @@
 #include <cstdlib>
 #include <unicode/coll.h>
 #include <unicode/locid.h>
+#include <unicode/uloc.h>
 #include <xalanc/XPath/Function.hpp>
 #include <xalanc/XPath/XObjectFactory.hpp>
 #include <xalanc/XSLT/XSLTInputSource.hpp>
@@ -48,6 +50,8 @@ static std::string narrow(const XalanDOMString& s)
 class FunctionProbe : public Function
 {
 public:
+    explicit FunctionProbe(bool count = true) : m_count(count) {}
+    bool m_count;
     virtual XObjectPtr
     execute(
             XPathExecutionContext&          executionContext,
@@ -59,9 +63,12 @@ public:
         {
             generalError(executionContext, context, locator);
         }
-        const long k = long(args[0]->num(executionContext));
-        const std::string id = narrow(args[1]->str(executionContext));
-        ++g_probes[std::make_pair(k, id)];
+        if (m_count)
+        {
+            const long k = long(args[0]->num(executionContext));
+            const std::string id = narrow(args[1]->str(executionContext));
+            ++g_probes[std::make_pair(k, id)];
+        }
         return args[2];
     }
 
@@ -114,6 +121,47 @@ protected:
     }
 };
 
+// {urn:verif:c16}bits(x): the IEEE-754 bit pattern of number(x) as 16 hex digits (exact observation of the value a
+// data-type="number" sort key has; number->string printing would lose -0 and round)
+class FunctionBits : public Function
+{
+public:
+    virtual XObjectPtr
+    execute(
+            XPathExecutionContext&          executionContext,
+            XalanNode*                      context,
+            const XObjectArgVectorType&     args,
+            const Locator*                  locator) const
+    {
+        if (args.size() != 1)
+        {
+            generalError(executionContext, context, locator);
+        }
+        const double d = args[0]->num(executionContext);
+        unsigned long long u;
+        std::memcpy(&u, &d, sizeof u);
+        char buf[32];
+        std::snprintf(buf, sizeof buf, "%016llx", u);
+        return executionContext.getXObjectFactory().createString(XalanDOMString(buf));
+    }
+
+    using Function::execute;
+
+    virtual FunctionBits*
+    clone(MemoryManager& theManager) const
+    {
+        return XalanCopyConstruct(theManager, *this);
+    }
+
+protected:
+    const XalanDOMString&
+    getError(XalanDOMString& theResult) const
+    {
+        theResult.assign("bits() takes one argument");
+        return theResult;
+    }
+};
+
 static bool unhex(const std::string& h, std::string& out)
 {
     if (h.size() % 2) return false;
@@ -146,7 +194,9 @@ int main()
     {
         XalanTransformer transformer;
         transformer.installExternalFunction(XalanDOMString("urn:verif:c16"), XalanDOMString("probe"), FunctionProbe());
+        transformer.installExternalFunction(XalanDOMString("urn:verif:c16"), XalanDOMString("noprobe"), FunctionProbe(false));
         transformer.installExternalFunction(XalanDOMString("urn:verif:c16"), XalanDOMString("boom"), FunctionBoom());
+        transformer.installExternalFunction(XalanDOMString("urn:verif:c16"), XalanDOMString("bits"), FunctionBits());
         std::ostringstream warnings;
         transformer.setWarningStream(&warnings);
 
@@ -182,6 +232,28 @@ int main()
                 // The oracle is ICU itself, not Xalan's bridge: a fresh collator for exactly this (lang, case-order),
                 // as the XSLT Recommendation describes the attributes of ONE xsl:sort.  lang "-" = the process default
                 // (LANG, as ICUBridgeCollationCompareFunctorImpl's constructor takes it).
+                if (w[2].size() >= ULOC_FULLNAME_CAPACITY)
+                {
+                    // ICU is never asked: the bridge's createCollator() refuses such a name and the comparison falls
+                    // back to UTF-16 code-unit order (model: collateF / Comparer.codeUnits)
+                    std::cout << "mat ";
+                    for (size_t i = 0; i < strs.size(); ++i)
+                    {
+                        for (size_t j = 0; j < strs.size(); ++j)
+                        {
+                            int r = 0;
+                            const XalanDOMString& a = strs[i];
+                            const XalanDOMString& b = strs[j];
+                            XalanDOMString::size_type k = 0;
+                            while (k < a.length() && k < b.length() && a[k] == b[k]) ++k;
+                            if (k < a.length() && k < b.length()) r = a[k] < b[k] ? -1 : 1;
+                            else r = a.length() < b.length() ? -1 : a.length() > b.length() ? 1 : 0;
+                            std::cout << (r < 0 ? '-' : r > 0 ? '+' : '0');
+                        }
+                    }
+                    std::cout << std::endl;
+                    continue;
+                }
                 UErrorCode status = U_ZERO_ERROR;
                 const char* const envLang = std::getenv("LANG");
                 const icu::Locale loc = w[2] == "-" ? (envLang ? icu::Locale(envLang) : icu::Locale::getDefault())
